@@ -37,7 +37,7 @@ def sweep(tier):
 def history(rng):
     ops = [F.iface_line(0, mtu=rng.choice([576, 1500])), F.glob_line()]
     active = None
-    st = F.STATIONS[:4]
+    st = F.STATIONS[:4] if rng.random() < 0.6 else F.HIGH[:4]     # ordinary stations, or twins equal but for their first byte(s)
     for _ in range(rng.randint(5, 60)):
         c = rng.random()
         x = rng.choice(st)
